@@ -64,6 +64,13 @@ int tapped_twice(int *src, int *out) {
     (void)pump(&c, out);
     return t.count == before;
 }
+int counted(int x) {
+    static int calls = 0;
+    static const int limit = 3;
+    if (calls > 0) return limit;
+    calls = x;
+    return 0;
+}
 bool storable(double x) { return (x == 0.) || (isnormal(x) != 0); }
 bool f32_ok(float v) { return storable(v); }
 bool f64_ok(double v) { return storable(v); }
@@ -122,7 +129,10 @@ def run():
     assert rets == ['0', '1'], 'tapped_loop: %s' % rets
     rets = [p.ret for p in eng.paths('tapped_twice') if p.end == 'return']
     assert rets and all(r != sym.C(1) for r in rets), 'tapped_twice: the second call may change t.count, got %s' % [fmt(r) for r in rets]
-    return 8
+    # 9. the initialiser of a mutable static local is not executed at every call (a const one is a constant)
+    rets = sorted(set(fmt(p.ret) for p in eng.paths('counted') if p.end == 'return'))
+    assert rets == ['0', '3'], 'counted: both branches on the static counter must stay open, got %s' % rets
+    return 9
 
 
 if __name__ == '__main__':
